@@ -37,6 +37,8 @@ def build(shape: str, fault: dict | None, absent: str = "") -> dict:
             nd[phase] = steps
         if fault and fault["path"] == p and fault["phase"] == "ctor":
             nd["ctor_fail"] = fault["cls"]
+        if fault and fault.get("gen") and not (fault["path"] == p and fault["phase"] == "ctor"):
+            nd["gen_start"] = True  # start() is a @context_teardown generator: its teardown part is registered when start() has finished
         if fault and fault.get("byref") and (fault["path"] == p or p in ancestors(fault["path"])):
             nd["byref"] = True  # declared by a "module:attr" reference, as in a configuration file
     return spec
@@ -79,6 +81,10 @@ class C07(E1Check):
                                         continue
                                     progs.append({"kind": "fault", "shape": shape, "absent": absent, "timeout": timeout,
                                                   "fault": {"path": p, "phase": phase, "pos": pos, "cls": cls.split("+")[0], "handshake": cls.endswith("+hs")}})
+                                    if cls == "E" and not absent and timeout == 5 and phase == "start":
+                                        # every start() is a @context_teardown generator
+                                        progs.append({"kind": "fault", "shape": shape, "absent": absent, "timeout": timeout,
+                                                      "fault": {"path": p, "phase": phase, "pos": pos, "cls": "E", "handshake": False, "gen": True}})
                                     if cls == "E" and not absent and timeout == 5 and pos == "before":
                                         # the failing component (and its ancestors) declared by reference strings instead of classes
                                         progs.append({"kind": "fault", "shape": shape, "absent": absent, "timeout": timeout,
